@@ -34,7 +34,7 @@ C2 == { [k |-> kk, e |-> c] : kk \in {"list", "map"}, c \in R1 }
 Cons == IF Quick THEN C0 \cup C1 ELSE C0 \cup C1 \cup C2
 
 \* bodies for the label snippet
-BA == { [k |-> "kw"], [k |-> "lit", t |-> Ty("string")], [k |-> "lit", t |-> [k |-> "map", e |-> Ty("string")]], [k |-> "any", t |-> Ty("number")],
+BA == { [k |-> "kw"], [k |-> "ref"], [k |-> "lit", t |-> Ty("string")], [k |-> "lit", t |-> [k |-> "map", e |-> Ty("string")]], [k |-> "any", t |-> Ty("number")],
         [k |-> "obj", as |-> <<[req |-> TRUE, c |-> [k |-> "lit", t |-> Ty("string")]], [req |-> TRUE, c |-> [k |-> "lit", t |-> Ty("bool")]]>>] }
 AttrS == { [req |-> r, c |-> c] : r \in Flags, c \in BA }
 AttrSeqs(n) == UNION { [1..m -> AttrS] : m \in 0..n }
